@@ -264,6 +264,7 @@ impl LangInterpreter for French {
                     "un" | "le" | "du" | "l'"
                 )
             {
+                b.reset();
                 let previous_text = tokens[true_words[i - 1]].text_lowercase();
                 let next_text = if (i + 1) < true_words.len() {
                     tokens[true_words[i + 1]].text_lowercase()
